@@ -239,6 +239,38 @@ CHECKS = {
         design="§5 C05", technique="Lean 4 proof (promotion-invariant characterisation of the flattened array, mutual "
                                    "structural induction over nested spaces) + differential correspondence with the "
                                    "real functions"),
+    "C11": dict(
+        text="Lean 4 theorems binary_spec / encoding_spec / selective_spec / restricted_spec / C11_attacks over the "
+             "model of AttackActorBaseComponent.process_action and the four _determine_attack methods "
+             "(Model/Attacks.lean: window scan row by row in cell-dictionary order over the C10 mask, _basic_criteria "
+             "with one accuracy draw per candidate that passed the three deterministic tests, _subset_attackables, "
+             "ammunition filter, sequential health loop with the skip of already dead victims and the removal from "
+             "the grid, exact order of tape consumption): for every world satisfying the C03 invariant, every "
+             "attacker, every action of the action space, every mapping / stacked flag / range / strength / accuracy / "
+             "ammunition level and EVERY tape the call returns and its outcome satisfies AttackSpec = specWho (every "
+             "hit is another, active agent of an allowed encoding, within range, not hidden by the C10 shadow rule, on "
+             "a group/cell the action addresses - cell number k >= 1 = row (k-1)/W, column (k-1)%W) && specHowMany "
+             "(per-step / per-encoding / per-cell limits, no repeated victim unless stacked, with accuracy 1 exactly "
+             "min(limit, eligible) resp. limit hits per group while the ammunition suffices and min(ammunition, total) "
+             "in all) && specBook (ammunition' = ammunition - hits >= 0, each victim's health = healthAfter (hits taken "
+             "while alive, clamped; = max 0 (h - m*s) by healthAfter_eq), dead victims inactive and erased from their "
+             "cell, everything else unchanged); attack_frame (bookkeeping for any action whenever the call returns), "
+             "attack_preserves_WInv(_any) / C03_attacks / successive_attacks (the C03 invariant is kept by every call "
+             "and every sequence of calls, no hypothesis on action or tape); readings c11_*. Tie: per-call refinement - "
+             "every real process_action(agent, {'attack': action}) call under the scripted oracle tape (pre-world, "
+             "actor, attacker, action, tape -> status, hits, post-world) is replayed by the driver (gattack) and "
+             "judged by the same predicate; asymmetric layouts, every action of the declared action space up to "
+             "2000 points, successive attacks. Finding F6 (column-major cell numbers) was repaired in /repo "
+             "(90c7833) and is kept as a corpus case.",
+        design="§5 C11", technique="Lean 4 proof (loop invariants over the scan and the health loop, sub-selection "
+                                   "(Subperm) reasoning for the random choices, counting against the list of eligible "
+                                   "agents, reuse of the C10 mask theorems) + per-call differential correspondence "
+                                   "with the four real attack actors under a scripted oracle tape",
+        note=NOTE + " C11 specifically: health, strength and accuracy are exact rationals in the model (the harness "
+             "feeds dyadic values on which IEEE arithmetic is exact); the shadow mask is the integer model of C10 "
+             "(float<->integer step: paper argument of DESIGN.md §5 C10); hits on a victim that an earlier hit of "
+             "the same call already killed are listed and cost ammunition but change nothing - the property's 'each "
+             "hit lowers the health by exactly the strength' is formalised as 'each hit taken while alive'."),
 }
 
 PENDING = {
